@@ -14,6 +14,7 @@ CONSTANTS
   Atomic = TRUE
   CallbacksUnderQueueLock = FALSE
   CountCooldowns = TRUE
+  FreshChannelOnWake = FALSE
 VIEW view
 ACTION_CONSTRAINT EdgeOut
 INVARIANTS TypeOK CountExact ListStatusConsistent HasPeerExact OnlyActiveOffered NoEarlyReturn
